@@ -210,7 +210,7 @@ func (ps *Pieces) ReadAt(p []byte, off int64) (int, error) {
 	index := int(off / int64(ps.pieceSize))
 	begin := int(off % int64(ps.pieceSize))
 
-	verifYield("ReadAt.beforeLock")
+	verifYield("ReadAt.beforeLock", index)
 	ps.mu.RLock()
 	defer ps.mu.RUnlock()
 
@@ -242,7 +242,7 @@ func (ps *Pieces) AddData(index uint32, begin uint32, data []byte, peer uint32) 
 		return
 	}
 
-	verifYield("AddData.beforeLock")
+	verifYield("AddData.beforeLock", int(index))
 	ps.mu.Lock()
 	defer ps.mu.Unlock()
 
@@ -315,7 +315,7 @@ func (ps *Pieces) Finalise(index uint32, h hash.Hash) (done bool, peers []uint32
 		return
 	}
 
-	verifYield("Finalise.beforeLock")
+	verifYield("Finalise.beforeLock", int(index))
 	ps.mu.Lock()
 	defer ps.mu.Unlock()
 
@@ -338,10 +338,10 @@ func (ps *Pieces) Finalise(index uint32, h hash.Hash) (done bool, peers []uint32
 	ps.pieces[index].setState(0, stateBusy)
 	ps.mu.Unlock()
 
-	verifYield("Finalise.beforeHash")
+	verifYield("Finalise.beforeHash", int(index))
 	hsh := sha1.Sum(data)
 	hh := hash.Hash(hsh[:])
-	verifYield("Finalise.afterHash")
+	verifYield("Finalise.afterHash", int(index))
 
 	ps.mu.Lock()
 	peers = ps.pieces[index].peers
@@ -370,7 +370,7 @@ func (ps *Pieces) del(p uint32, force bool) (done bool, complete bool) {
 		ps.mu.Unlock()
 		t := 10 * time.Microsecond
 		for ps.pieces[p].Busy() {
-			verifYield("del.wait")
+			verifYield("del.wait", int(p))
 			time.Sleep(t)
 			if t < 10*time.Millisecond {
 				t = t * 2
@@ -478,7 +478,7 @@ func (ps *Pieces) Expire(bytes int64, available []uint16, f func(index uint32)) 
 		return cmp.Compare(t[j], t[i])
 	})
 
-	verifYield("Expire.beforeBytes")
+	verifYield("Expire.beforeBytes", -1)
 	todo := ps.Bytes() - bytes
 
 	count := 0
@@ -487,7 +487,7 @@ func (ps *Pieces) Expire(bytes int64, available []uint16, f func(index uint32)) 
 		if todo <= 0 {
 			break
 		}
-		verifYield("Expire.beforeDel")
+		verifYield("Expire.beforeDel", i)
 		ps.mu.Lock()
 		done, complete := ps.del(index, false)
 		ps.mu.Unlock()
@@ -504,7 +504,7 @@ func (ps *Pieces) Expire(bytes int64, available []uint16, f func(index uint32)) 
 
 // Del discards the contents of a torrent from memory.
 func (ps *Pieces) Del() {
-	verifYield("Del.beforeLock")
+	verifYield("Del.beforeLock", -1)
 	ps.mu.Lock()
 	defer ps.mu.Unlock()
 	for i := uint32(0); i < uint32(len(ps.pieces)); i++ {
